@@ -555,7 +555,14 @@ def submodule_locality(case, ctx):
 
 # ----------------------------------------------------------------------------
 CLASH_KINDS = ['sub_sub', 'sub_var', 'var_sub', 'var_var', 'var_var_other_col',
-               'explicit_vs_auto', 'dense_dense']
+               'explicit_vs_auto', 'dense_dense',
+               # the first holder of the name is a sown / perturbation variable
+               'sow_var', 'sow_sub', 'perturb_sub', 'perturb_var',
+               'sow_var_other_col']
+# kinds whose first op the tree walker does not track as a name holder: the
+# prediction is fixed by construction
+FORCED = {'sow_var': True, 'sow_sub': True, 'perturb_sub': True,
+          'perturb_var': True, 'sow_var_other_col': False}
 
 
 def inject_clash(prog, kind):
@@ -573,6 +580,15 @@ def inject_clash(prog, kind):
       'explicit_vs_auto': [sub('NodeA_0'), sub(None)],
       'dense_dense': [{'op': 'dense', 'name': 'dup', 'attr': 'attr'},
                       {'op': 'dense', 'name': 'dup', 'attr': 'attr'}],
+      'sow_var': [{'op': 'sow', 'col': 'cache', 'name': 'dup'},
+                  var('cache', 'dup')],
+      'sow_sub': [{'op': 'sow', 'col': 'aux', 'name': 'dup'}, sub('dup')],
+      'perturb_sub': [{'op': 'perturb', 'name': 'dup', 'dtype': None},
+                      sub('dup')],
+      'perturb_var': [{'op': 'perturb', 'name': 'dup', 'dtype': None},
+                      var('perturbations', 'dup')],
+      'sow_var_other_col': [{'op': 'sow', 'col': 'aux', 'name': 'dup'},
+                            var('cache', 'dup')],
   }[kind]
   return add
 
@@ -583,7 +599,8 @@ def inject_clash(prog, kind):
             st.integers(0, 3), st.integers(0, 5)),
         quick=400, thorough=20000, quick_shards=4,
         rule='two ops with clashing names (submodule/submodule, submodule/'
-        'variable in both orders, two variables of one collection, explicit '
+        'variable in both orders, two variables of one collection (the first '
+        'holder of the name possibly a sown or perturbation variable), explicit '
         'name equal to a later auto-name, two Dense) are inserted at a random '
         'depth and position of a compact module; init must raise '
         'NameInUseError exactly when the independent walker predicts a clash '
@@ -620,6 +637,8 @@ def name_clashes(case, ctx):
     clash = False
   except L.Clash:
     clash = True
+  if kind in FORCED and not clash:
+    clash = FORCED[kind]
   mod = L.make_root(case2)
   x = L.make_input(case2)
   key = jax.random.key(case2['seed'])
@@ -630,5 +649,9 @@ def name_clashes(case, ctx):
     with sut('init (no clash expected)'):
       v = mod.init(key, x)
     got = shapes(v)
+    if kind in FORCED:
+      # (sown entries are tuples: only the paths are compared)
+      got = {c: set(t) for c, t in got.items()}
+      exp = {c: set(t) for c, t in exp.items()}
     require(got == exp, lambda: f'{kind}: tree {got} != expected {exp}')
   ctx.note(labels=[kind, 'clash' if clash else 'legal'], nontrivial=d >= 1)
